@@ -677,6 +677,20 @@ func genBytes(t *rapid.T, text bool, ctx *genCtx, chance int) []byte {
 // bytewise order of the encoded keys differs from caller order and from length-first order),
 // occasionally a bool or a short array as in the repository's own TestMapEncoder.
 func genKey(t *rapid.T, ctx *genCtx) *Node {
+	if rapid.IntRange(0, 4).Draw(t, "kfamily") == 0 {
+		// keys of one FAMILY: their encodings agree in the first 8..20 octets and differ only after
+		// that (or only in length), so that a comparator that looks at a prefix, a hash or a length
+		// first has ties to break: "version1" / "version2" / "version", 2^63 / 2^63+1, ...
+		switch rapid.IntRange(0, 3).Draw(t, "kfam") {
+		case 0:
+			return &Node{Kind: "text", S: []byte("version" + rapid.SampledFrom([]string{"", "1", "2", "10", "1a", "1b", "_longer_suffix_a", "_longer_suffix_b"}).Draw(t, "kfamt"))}
+		case 1:
+			return &Node{Kind: "uint", U: 1<<63 + uint64(rapid.IntRange(0, 3).Draw(t, "kfamu"))}
+		case 2:
+			return &Node{Kind: "bytes", S: append(bytes.Repeat([]byte{0x61}, rapid.SampledFrom([]int{7, 8, 9, 16}).Draw(t, "kfambl")), byte(rapid.IntRange(0, 2).Draw(t, "kfambt")))}
+		}
+		return &Node{Kind: "int", I: -(1 << 62) - int64(rapid.IntRange(0, 3).Draw(t, "kfami"))}
+	}
 	switch rapid.SampledFrom([]string{"uint", "uint", "neg", "bytes", "bytes", "text", "text", "bool", "array"}).Draw(t, "kkind") {
 	case "uint":
 		if rapid.Bool().Draw(t, "kusmall") {
